@@ -210,7 +210,13 @@ static Result check_world_surface(const J &c)
   for (size_t i = 0; i < c.at("polygon").size(); ++i)
     {
       const J &p = c.at("polygon")[i];
-      if (c.at("corner_listed")[i].boolean()) { if (p[0].num() == 0 || p[1].num() == 0) zero_corner_listed = true; }
+      // listed as a corner, or hit by one of the other listed points (lattice rounding can put one exactly on a corner)
+      bool listed_here = c.at("corner_listed")[i].boolean();
+      for (auto &n : nodes) if (n[0] == p[0].num() && n[1] == p[1].num()) listed_here = true;
+      // a bare entry written after a listed point that sits on a corner: which of the two the corner keeps is an order question the
+      // documentation does not answer - not asserted
+      if (listed_here && !c.at("corner_listed")[i].boolean() && has_bare && bare_pos > 0) { r.discard = true; return r; }
+      if (listed_here) { if (p[0].num() == 0 || p[1].num() == 0) zero_corner_listed = true; }
       else nodes.push_back({{p[0].num(), p[1].num(), base}});
     }
   if (has_bare && li <= bare_pos) surf.push(J::arr({J(base)}));
